@@ -67,4 +67,5 @@ let cls = function Ok _ -> "ok" | Err -> "err" | Panic -> "panic"
 
 let handle f = match f with
   | ["pkg"; w] -> (try cls (load_skel (parse_pkg (ints_of_wire w))) with Bad_wire | Failure _ -> "badwire")
+  | ["dec"; w] -> (match decode_cursor_x (text_of_wire w) with Panic -> "panic" | _ -> "nopanic")
   | _ -> "badcase"
